@@ -18,7 +18,7 @@ for d in $src/C*/[0-9]*; do
   demo=$(ls $d/demo*_test.go $d/demo*.go 2>/dev/null | head -1)
   echo "mutant $id/$n demo_dir=$ddir demo_cmd=$dcmd"
   cp $demo $wt/$ddir/zz_demo_test.go
-  run_demo() { (cd $wt && timeout 300 go test -count=1 -run 'Demo|C[0-9][0-9]' ./$ddir/ 2>&1 | tail -5); }
+  run_demo() { (cd $wt && timeout 300 go test -count=1 ./$ddir/ 2>&1 | tail -5); }
   echo "--- clean + demo"; a=$(run_demo); echo "$a"
   rm $wt/$ddir/zz_demo_test.go
   git apply $d/patch.diff || echo "APPLY FAILED"
